@@ -50,6 +50,8 @@ class Assembled:
         self.lines = []          # output lines
         self.origin = []         # per line: (kind, info) kind in prelude/lemma/raw/extract/ann
         self.labels = {}         # line no (1-based) -> (fnqual, label)
+        self.also = {}           # label -> [other properties that own the clause too]
+        self.imports = []        # (unit, relpath, qual): contracts imported verbatim from the unit where they are proved
         self.fns = []            # dicts: qual, relpath, start, end (1-based lines), hash, mode, assumed
         self.rewrites = []
         self.trusted = []        # external_body / assume_specification / axioms found
@@ -160,13 +162,14 @@ def assemble(unit_path, variant=None):
             if ann.get("imported_from"):
                 mode = "ASSUMED"
                 A.trusted.append(f"contract of {p['relpath']}::{qual} imported verbatim from unit {ann['imported_from']} where it is PROVED")
+                A.imports.append((ann["imported_from"], p["relpath"], qual))
             elif ann.get("external_body"):
                 mode = "ASSUMED"
                 A.trusted.append(f"assumed contract (body not verified): {p['relpath']}::{qual}")
             A.fns.append({"qual": qual, "file": p["relpath"], "repo_line": X._srcline(src, it["span"][0]),
                           "start": start, "end": end, "mode": mode,
                           "hash": X.src_hash(p["relpath"], it["span"], src), "labels": labels,
-                          "props": sorted({l.split(".")[0] for l in labels})})
+                          "props": sorted({q.split(".")[0] for l in labels for q in l.split("+")})})
         elif kind in ("struct", "enum"):
             text, segs, src, log, it = X.extract_type(p["relpath"], p["qual"], p["opts"])
             A.emit(text, "extract-type", p["qual"], None, p["relpath"])
@@ -200,7 +203,8 @@ def assemble(unit_path, variant=None):
         if name == "requires":
             ann["requires"] = (ann.get("requires") or "") + text
         elif name == "ensures":
-            ann.setdefault("ensures", []).append((arg, text))
+            # `LABEL +C05+C06`: the clause is owned by the property of its label AND by the listed ones (their layer-2 argument rests on it)
+            ann.setdefault("ensures", []).append((re.sub(r"\s+", "", arg), text))
         elif name == "closure":
             ann.setdefault("closures", {})[arg] = text
         elif name == "loop":
@@ -233,6 +237,8 @@ def assemble(unit_path, variant=None):
             ann["tail"] = (ann.get("tail") or "") + text
         elif name == "params":
             ann["seg_params"] = text
+        elif name == "optparams":
+            ann["seg_optparams"] = text
         elif name == "segtail":
             ann["seg_tail"] = text
         elif name == "before":
@@ -269,7 +275,7 @@ def assemble(unit_path, variant=None):
         d, rest = m.group(1), m.group(2).strip()
         if d != "use":
             flush_groups()
-        if d in ("requires", "ensures", "closure", "loop", "maploop", "forloop", "anyloop", "findloop", "findhit", "findexit", "findmut", "findmuthit", "findmutexit", "looptail", "loophead", "head", "tail", "params", "segtail", "before", "before_stmt", "after", "replace", "with", "decreases"):
+        if d in ("requires", "ensures", "closure", "loop", "maploop", "forloop", "anyloop", "findloop", "findhit", "findexit", "findmut", "findmuthit", "findmutexit", "looptail", "loophead", "head", "tail", "params", "optparams", "segtail", "before", "before_stmt", "after", "replace", "with", "decreases"):
             close_section()
             if pending is None:
                 raise Inconclusive(f"{unit_path}:{i+1}: //@{d} outside //@fn")
@@ -301,7 +307,7 @@ def assemble(unit_path, variant=None):
                     req, ens = import_contract(os.path.join(VERIF, "units", kv["from"] + ".vu"), relpath, qual)
                     ann["external_body"] = True
                     ann["requires"] = req
-                    ann["ensures"] = [("proved_in." + kv["from"] + "." + l.replace(".", "_"), t) for (l, t) in ens]
+                    ann["ensures"] = [("proved_in." + kv["from"] + "." + l.split("+")[0].strip().replace(".", "_"), t) for (l, t) in ens]
                     ann["imported_from"] = kv["from"]
                 if "inherent" in flags: ann["inherent"] = True
                 if "optional" in flags: ann["optional"] = True
@@ -355,10 +361,13 @@ def assemble(unit_path, variant=None):
     # labels + trusted scan
     cur_fn = None
     for n, l in enumerate(A.lines, 1):
-        m = re.search(r"/\*@L ([\w\.\-]+)\*/", l)
+        m = re.search(r"/\*@L ([\w\.\-\+]+)\*/", l)
         if m:
             fq = next((f["qual"] for f in A.fns if f["start"] <= n <= f["end"]), None)
-            A.labels[n] = (fq, m.group(1))
+            base, *also = m.group(1).split("+")
+            A.labels[n] = (fq, base)
+            if also:
+                A.also[base] = sorted(set(A.also.get(base, []) + also))
     scan_trusted(A)
     return A
 
